@@ -546,6 +546,7 @@ class AbsSlice:
             raise Fail('symbolic read width')
         pat = ''
         need = n
+        segs = []       # what a raw read covers: ('k', bits) constant tag bits / ('f', k, token, whole) k bits of a schema field / ('?', k)
         while need > 0:
             i = s.first('bits')
             if i is None:
@@ -556,6 +557,7 @@ class AbsSlice:
             if t.kind == 'TAG':
                 k = min(need, len(t.bits))
                 pat += t.bits[:k]
+                segs.append(('k', t.bits[:k]))
                 need -= k
                 if k == len(t.bits):
                     s.toks.pop(i)
@@ -584,19 +586,100 @@ class AbsSlice:
                 pat += '?' * k
                 need -= k
                 s.trace.append((f'{mode}{n}[{k}]', f'{t.name}:{t.ty}{t.n}'))
+                segs.append(('f', k, t.clone(), k == t.n and not getattr(t, 'split', False)))
                 if k == t.n:
                     s.toks.pop(i)
                 else:
                     t.n -= k
+                    t.split = True
                 continue
             if t.kind == 'ANY':
                 pat += '?' * need
+                segs.append(('?', need))
                 need = 0
                 continue
             if t.kind in ('VARU', 'VARI', 'ADDR') and mode in ('bits', 'bytes', 'str'):
                 raise Mismatch(f'raw read of {n} bits over the variable-length field {t.name} ({t.kind})')
             raise Mismatch(f'load_{mode}({n}) but the schema has {t} next')
-        return bits_value(pat, mode if mode in ('uint', 'int', 'str', 'bytes') else 'bits')
+        r = bits_value(pat, mode if mode in ('uint', 'int', 'str', 'bytes') else 'bits')
+        if isinstance(r, PBits):
+            r.segs = segs
+            r.owner = s
+        return r
+
+    def struct_unpack(s, it, fmt, raw):
+        """struct.unpack over a raw multi-field read: every integer item must coincide with exactly one schema field, in width and signedness"""
+        from .models import struct_items
+        items = struct_items(fmt)
+        if items is None:
+            raise Fail(f'struct format {fmt!r} (native sizes / alignment are not modelled)')
+        segs = [list(x) for x in raw.segs]
+        out = []
+        widths = {'b': (8, 'int'), 'B': (8, 'uint'), 'h': (16, 'int'), 'H': (16, 'uint'), 'i': (32, 'int'), 'I': (32, 'uint'), 'l': (32, 'int'), 'L': (32, 'uint'),
+                  'q': (64, 'int'), 'Q': (64, 'uint'), '?': (8, 'uint'), 'c': (8, 'bits')}
+
+        def take(nbits, what):
+            """-> list of segment pieces covering nbits"""
+            got, need = [], nbits
+            while need > 0:
+                if not segs:
+                    raise Mismatch(f'struct item {what} reads past the {len(raw.pat)} bits that were loaded')
+                sg = segs[0]
+                size = len(sg[1]) if sg[0] == 'k' else sg[1]
+                k = min(size, need)
+                if sg[0] == 'k':
+                    got.append(('k', sg[1][:k]))
+                    sg[1] = sg[1][k:]
+                else:
+                    got.append((sg[0], k) + tuple(sg[2:]) + ((k == size),))
+                    sg[1] -= k
+                if (len(sg[1]) if sg[0] == 'k' else sg[1]) == 0:
+                    segs.pop(0)
+                need -= k
+            return got
+        for idx, (code, cnt) in enumerate(items):
+            if code == 'x':
+                take(8, 'x')
+                continue
+            if code == 's':
+                got = take(8 * cnt, f'{cnt}s')
+                if all(g[0] == 'k' for g in got):
+                    bits = ''.join(g[1] for g in got)
+                    out.append(K(bytes(int(bits[i:i + 8], 2) for i in range(0, len(bits), 8))))
+                elif len(got) == 1 and got[0][0] == 'f' and got[0][3] and got[0][-1]:
+                    t = got[0][2]
+                    sym = Sym(t.name or 'anon', t, not_none=True, field=t.name, ty='bytes', n=cnt)
+                    s.reads.append((t.name, sym))
+                    out.append(sym)
+                else:
+                    out.append(Sym(f'struct[{idx}]', ty='bytes', n=cnt, not_none=True))
+                continue
+            w, sign = widths[code]
+            got = take(w, code)
+            if all(g[0] == 'k' for g in got):
+                bits = ''.join(g[1] for g in got)
+                v = int(bits, 2)
+                if sign == 'int' and bits[0] == '1':
+                    v -= 1 << w
+                out.append(K(bool(v)) if code == '?' else K(v))
+                continue
+            if len(got) == 1 and got[0][0] == 'f' and got[0][3] and got[0][-1]:
+                t = got[0][2]
+                if t.ty in ('uint', 'int') and sign in ('uint', 'int') and t.ty != sign:
+                    raise Mismatch(f'field {t.name}:{t.ty}{t.n} is unpacked with struct code {code!r} (signedness)')
+                sym = Sym(t.name or 'anon', t, not_none=True, field=t.name)
+                s.reads.append((t.name, sym))
+                s.trace.append((f'struct {code}', f'{t.name}:{t.ty}{t.n}'))
+                out.append(sym)
+                continue
+            f0 = next((g for g in got if g[0] == 'f'), None)
+            if f0 is not None:
+                t = f0[2]
+                raise Mismatch(f'struct code {code!r} ({w} bits) does not coincide with field {t.name}:{t.ty}{t.n}')
+            out.append(Sym(f'struct[{idx}]', not_none=True))
+        if segs and any((len(x[1]) if x[0] == 'k' else x[1]) for x in segs):
+            raise RaiseEx('error', 'struct.unpack requires a buffer of the exact size')
+        return ListV(out, tup=True)
 
     def field_value(s, t, mode):
         dom = None
@@ -908,3 +991,12 @@ def install_modular(it, db, classmap, root_class, leftovers=None):
                         return r
         return prev(f, args, kw) if prev else None
     it.summary_hook = hook
+    prev_ext = getattr(it, 'ext_hook', None)
+
+    def ext_hook(dotted, args, kw, n):
+        if dotted in ('struct.unpack', 'struct.unpack_from') and len(args) >= 2 and isinstance(args[0], K) and isinstance(args[1], PBits) \
+                and getattr(args[1], 'segs', None) is not None:
+            fmt = args[0].v if isinstance(args[0].v, str) else args[0].v.decode()
+            return args[1].owner.struct_unpack(it, fmt, args[1])
+        return prev_ext(dotted, args, kw, n) if prev_ext else None
+    it.ext_hook = ext_hook
